@@ -354,6 +354,9 @@ Spec == Init /\ [][Next]_vars
 \* after every successful redraw the terminal shows exactly the images of the canvas just drawn
 PlacementsExact == ok => Shown(T, GFX) = ImpliedNow
 
+\* kitty stacks a line sent twice at the same cell and z-index: no image line is present twice
+NoDuplicates == Ident = "kitty" => Len(T.pl) = Cardinality(Shown(T, GFX))
+
 IsRedrawOp == out.op \in {"redraw", "same", "bad"}
 OutputBracketed == IsRedrawOp => Bracketed(out.toks) /\ T.sync = 0
 DeletionsFirst == IsRedrawOp => DeletesFirst(out.toks, GFX)
